@@ -12,9 +12,10 @@
   * `Sound`       — the conclusion of the soundness theorem for one evaluation result.
   * `EntityOK`    — an entity PRESENT in the store conforms to its declared type: its attribute record inhabits the
                     declared shape (required attributes present, optional ones well-typed if present, nothing else), every
-                    tag value has the declared tag type (no tags if none is declared), and every parent's entity type
-                    is one of the declared parent types (for an action entity, whose type has no declaration: the
-                    action's own entity type).
+                    tag value has the declared tag type (no tags if none is declared), and every parent of a
+                    NON-action entity is a non-action entity whose type is one of the declared parent types, every
+                    parent of an ACTION entity is an action entity (of any action entity type: an action group may be
+                    declared in another namespace; WHICH actions is the business of `ActionsOK`).
   * `EnvOK`       — `env ⊨ Γ`: request variables have the environment's entity types (the action is the environment's
                     action), the context inhabits its record type, every entity present in the store is `EntityOK`.
                     Entities may be absent.
@@ -67,7 +68,9 @@ def Sound (env : Env) (τ : Ty) (caps' : Caps) (r : Res) : Prop :=
 structure EntityOK (Γ : TEnv) (uid : UID) (d : EntityData) : Prop where
   attrs : HasTy (.record d.attrs) (.record (declOf Γ uid.1).attrs)
   tags : ∀ k v, kvGet k d.tags = some v → ∃ t, (declOf Γ uid.1).tags = some t ∧ HasTy v t
-  parents : ∀ p ∈ d.parents, p.1 ∈ (declOf Γ uid.1).parents ∨ (isActionEntity uid.1 = true ∧ p.1 = uid.1)
+  parents : ∀ p ∈ d.parents,
+    (isActionEntity uid.1 = false ∧ isActionEntity p.1 = false ∧ p.1 ∈ (declOf Γ uid.1).parents) ∨
+    (isActionEntity uid.1 = true ∧ isActionEntity p.1 = true)
 
 structure EnvOK (Γ : TEnv) (env : Env) : Prop where
   principal : ∃ i, env.principal = .entity Γ.principalType i
@@ -2106,7 +2109,7 @@ theorem entityTagType_dom_go (s : Bool) (Γ : TEnv) : ∀ (tys : List String) (a
   | t :: ts, acc, r, h => by
     simp only [entityTagType] at h ⊢
     cases ht : (declOf Γ t).tags with
-    | none => simpa [ht] using h
+    | none => simp only [ht] at h ⊢; exact entityTagType_dom_go s Γ ts acc r h
     | some tagTy =>
       simp only [ht] at h ⊢
       cases hu : lub true s acc tagTy with
@@ -2116,29 +2119,15 @@ theorem entityTagType_dom_go (s : Bool) (Γ : TEnv) : ∀ (tys : List String) (a
         rw [lub_dom_go s acc tagTy u hu]
         exact entityTagType_dom_go s Γ ts u r h
 
-theorem hasTagResult_dom_go {Γ : TEnv} {l r : Expr} {lt rt : Ty} {caps : Caps} {res : Ty × Caps}
-    (h : hasTagResult true Γ l r lt rt caps = .ok res) : hasTagResult false Γ l r lt rt caps = .ok res := by
-  unfold hasTagResult at h ⊢
-  split at h
-  · simp only [Bool.true_and] at h
-    split at h
-    · simp at h
-    · simpa using h
-  · simp at h
-
 theorem getTagResult_dom_go {Γ : TEnv} {l r : Expr} {lt rt : Ty} {caps : Caps} {res : Ty}
     (h : getTagResult true Γ l r lt rt caps = .ok res) : getTagResult false Γ l r lt rt caps = .ok res := by
   unfold getTagResult at h ⊢
   split at h
-  · simp only [Bool.true_and] at h
-    split at h
+  · split at h
     · simp at h
-    · simp only [Bool.false_and, Bool.false_eq_true, if_false]
-      split at h
-      · simp at h
-      · rename_i tagTy ht
-        rw [entityTagType_dom_go _ _ _ _ _ ht]
-        exact h
+    · rename_i tagTy ht
+      rw [entityTagType_dom_go _ _ _ _ _ ht]
+      exact h
   · simp at h
 
 section domgo
@@ -2464,7 +2453,7 @@ theorem typeOf_dom_go : ∀ (e : Expr) (caps : Caps) (res : Ty × Caps), typeOf 
       | ok q =>
         obtain ⟨rt, rc⟩ := q
         rw [typeOf_dom_go r caps _ hr]; simp only [hr] at h
-        exact hasTagResult_dom_go h
+        exact h
   | .is e ty, caps, res, h => by
     simp only [typeOf] at h ⊢
     split at h
